@@ -4,6 +4,7 @@ import (
 	"fmt"
 	"sort"
 	"strings"
+	"unicode"
 
 	"verif/harness/core"
 )
@@ -141,6 +142,171 @@ func groupNames(n *pnode, out *[]string) {
 
 // inDomain re-checks the generator's restrictions on an arbitrary AST (used by the minimiser so that a shrunk
 // witness never leaves the domain in which engine agreement is demanded).
+// classSingleChar: the class denotes (the complement of) exactly one character, however often it is listed.
+func classSingleChar(n *pnode) (rune, bool) {
+	if n.k != nClass || len(n.items) == 0 {
+		return 0, false
+	}
+	c := n.items[0].lo
+	for _, it := range n.items {
+		if it.esc != 0 || it.lo != it.hi || it.lo != c {
+			return 0, false
+		}
+	}
+	return c, true
+}
+
+func hasNotone(n *pnode) bool {
+	if _, one := classSingleChar(n); one && n.neg {
+		return true
+	}
+	for _, k := range n.kids {
+		if hasNotone(k) {
+			return true
+		}
+	}
+	return false
+}
+
+func domainOK(n *pnode, u bool) bool {
+	return inDomain(n, false, false) && !hasNotone(n) && !hasDashRangeStart(n) && len(surrogateRunOffenders(n, u)) == 0
+}
+
+func hasDashRangeStart(n *pnode) bool {
+	if n.k == nClass {
+		for _, it := range n.items {
+			if it.esc == 0 && it.lo == '-' && it.hi != it.lo {
+				return true
+			}
+		}
+	}
+	for _, k := range n.kids {
+		if hasDashRangeStart(k) {
+			return true
+		}
+	}
+	return false
+}
+
+// surrogateRunOffenders: regexp2 v2.5.2 converts literal runs to Go strings in its prefix / fixed-distance-literal search,
+// which turns surrogate code units into U+FFFD (known finding C20-regexp2-surrogate-literal-run).  A literal that is a lone
+// surrogate (or, without u, an astral character = two surrogate units) must therefore not touch another literal - groups are
+// transparent for regexp2's concatenation reduction - and must not be repeated {2,}.
+func surrogateRunOffenders(root *pnode, u bool) []*pnode {
+	type tok struct {
+		lit *pnode // nil = separator
+	}
+	var toks []tok
+	var bad []*pnode
+	isSur := func(n *pnode) bool {
+		if n.k == nClass {
+			c, one := classSingleChar(n)
+			return one && isLone(c)
+		}
+		return n.k == nLit && (isLone(n.r) || (!u && n.r >= 0x10000))
+	}
+	var walk func(n *pnode)
+	walk = func(n *pnode) {
+		switch n.k {
+		case nLit:
+			toks = append(toks, tok{n})
+			if !u && n.r >= 0x10000 {
+				bad = append(bad, n) // two adjacent surrogate units by itself
+			}
+		case nGroup, nSeq:
+			for _, k := range n.kids {
+				walk(k)
+			}
+		case nAlt:
+			for _, k := range n.kids {
+				toks = append(toks, tok{})
+				walk(k)
+			}
+			toks = append(toks, tok{})
+		case nQuant:
+			// x{2,} unrolls into "xx..." ; a quantified group is opaque enough (loop node) but its inside is still walked
+			inner := n.kids[0]
+			_, oneCharClass := classSingleChar(inner)
+			oneCharClass = oneCharClass && !inner.neg
+			if inner.k == nLit || oneCharClass {
+				// regexp2 coalesces a loop with neighbouring equal characters and derives prefix strings from loops:
+				// a quantified surrogate literal is treated like an unquantified one, and must not repeat {2,}
+				if isSur(inner) && (n.min >= 2 || (!u && inner.k == nLit && inner.r >= 0x10000)) {
+					bad = append(bad, inner)
+				}
+				toks = append(toks, tok{inner})
+			} else {
+				toks = append(toks, tok{})
+				walk(inner)
+				toks = append(toks, tok{})
+				if n.min >= 2 {
+					// a repeated group body abuts itself
+					var lits []*pnode
+					var coll func(x *pnode)
+					coll = func(x *pnode) {
+						if isSur(x) {
+							lits = append(lits, x)
+						}
+						for _, k := range x.kids {
+							coll(k)
+						}
+					}
+					coll(inner)
+					bad = append(bad, lits...)
+				}
+			}
+		case nClass:
+			// regexp2 reduces a positive one-character class to the character itself
+			if _, one := classSingleChar(n); one && !n.neg {
+				toks = append(toks, tok{n})
+				if !u && n.items[0].lo >= 0x10000 {
+					toks = append(toks, tok{}) // (non-u: two class atoms, stays a set)
+				}
+			} else {
+				toks = append(toks, tok{})
+			}
+		default:
+			toks = append(toks, tok{})
+		}
+	}
+	walk(root)
+	for i, t := range toks {
+		if t.lit == nil || !isSur(t.lit) {
+			continue
+		}
+		if (i > 0 && toks[i-1].lit != nil) || (i+1 < len(toks) && toks[i+1].lit != nil) {
+			bad = append(bad, t.lit)
+		}
+	}
+	return bad
+}
+
+func (g *caseGen) fixSurrogateRuns(root *pnode) {
+	for round := 0; round < 4; round++ {
+		bad := surrogateRunOffenders(root, g.u)
+		if len(bad) == 0 {
+			return
+		}
+		for _, n := range bad {
+			// replace by a non-surrogate character of the alphabet (or 'b')
+			repl := rune('b')
+			for _, c := range g.alpha {
+				if !isLone(c) && c < 0x10000 && !isSyntaxChar(c) {
+					repl = c
+					break
+				}
+			}
+			if n.k == nClass {
+				n.items = []classItem{{lo: repl, hi: repl}}
+			} else {
+				n.r = repl
+				n.spell = 0
+			}
+			g.feat["surrogate-literal-replaced"] = true
+		}
+	}
+}
+
 func inDomain(n *pnode, inRepeat, optional bool) bool {
 	switch n.k {
 	case nGroup:
@@ -158,7 +324,7 @@ func inDomain(n *pnode, inRepeat, optional bool) bool {
 		return true
 	case nQuant:
 		body := n.kids[0]
-		if nullable(body) && hasCapture(body) {
+		if nullable(body) {
 			return false
 		}
 		rep, opt := inRepeat, optional
@@ -369,6 +535,34 @@ type caseGen struct {
 	names []string
 	feat  map[string]bool
 	depth int
+	wordB bool // \b / \B may be generated; the alphabet then has no non-ASCII letters/marks/digits/connectors (KF regexp2-word-boundary)
+}
+
+// regexp2 v2.5.2 decides \b and \B with Unicode categories L, Mn, Nd, Pc instead of [A-Za-z0-9_] (known finding
+// C20-regexp2-word-boundary-unicode): such characters are kept away from patterns that contain a word-boundary assertion.
+func regexp2WordChar(r rune) bool {
+	return r >= 0x80 && unicode.In(r, unicode.L, unicode.Mn, unicode.Nd, unicode.Pc)
+}
+
+// in non-u mode regexp2 sees the two surrogate code units of an astral character (category Cs), never a letter
+func (g *caseGen) badForWordB(r rune) bool {
+	return g.wordB && regexp2WordChar(r) && (r < 0x10000 || g.u)
+}
+
+func (g *caseGen) filterWordB(pool []rune) []rune {
+	if !g.wordB {
+		return pool
+	}
+	var out []rune
+	for _, r := range pool {
+		if !g.badForWordB(r) {
+			out = append(out, r)
+		}
+	}
+	if len(out) == 0 {
+		return []rune{0xA0}
+	}
+	return out
 }
 
 func pickSome(r *core.Rng, pool []rune, n int, out []rune) []rune {
@@ -384,6 +578,8 @@ func (g *caseGen) buildAlphabet() {
 	if g.i {
 		pa, pl, pb, ps = poolASCIIi, poolLatin1i, poolBMPi, poolAstrali
 	}
+	g.wordB = r.Chance(1, 3)
+	pl, pb, ps = g.filterWordB(pl), g.filterWordB(pb), g.filterWordB(ps)
 	g.alpha = pickSome(r, pa, r.Range(2, 4), nil)
 	profile := r.Intn(100)
 	switch {
@@ -403,6 +599,26 @@ func (g *caseGen) buildAlphabet() {
 		g.alpha = pickSome(r, ps, r.Range(1, 2), g.alpha)
 		g.alpha = pickSome(r, poolLone, r.Intn(2), g.alpha)
 	}
+}
+
+func (g *caseGen) alphaHas(cs ...rune) bool {
+	for _, c := range g.alpha {
+		for _, x := range cs {
+			if c == x {
+				return true
+			}
+		}
+	}
+	return false
+}
+
+func (g *caseGen) alphaHasAbove(lim rune) bool {
+	for _, c := range g.alpha {
+		if c > lim {
+			return true
+		}
+	}
+	return false
 }
 
 func isLone(r rune) bool { return r >= 0xD800 && r <= 0xDFFF }
@@ -457,11 +673,15 @@ func (g *caseGen) lit() *pnode {
 
 func (g *caseGen) class() *pnode {
 	n := &pnode{k: nClass, neg: g.r.Chance(3, 10)}
+	if g.i && n.neg && !g.r.Chance(1, 8) {
+		n.neg = false // regexp2 needs ~50-90 ms to compile a large case-insensitive set: keep those rare
+	}
 	g.feat["class"] = true
 	if n.neg {
 		g.feat["class-neg"] = true
 	}
-	if g.r.Chance(1, 40) { // [] or [^]
+	if g.r.Chance(1, 40) && !(g.u && g.alphaHasAbove(0x1FFFF)) { // [] or [^]
+		// (under u the RE2 translation of [] / [^] stops at U+1FFFF: known finding C20-empty-class-above-1ffff)
 		g.feat["class-empty"] = true
 		return n
 	}
@@ -477,9 +697,15 @@ func (g *caseGen) class() *pnode {
 			if g.r.Chance(1, 2) {
 				// a short range around one alphabet character
 				b = a + rune(g.r.Range(0, 3))
+				if b > 0x10FFFF {
+					b = a
+				}
 			}
 			if a > b {
 				a, b = b, a
+			}
+			if a == '-' && b != a {
+				a = '+' // regexp2 v2.5.2 does not read "\\--x" as a range (known finding C20-regexp2-escaped-dash-range)
 			}
 			// range end points: in non-u mode an astral end point is two class atoms, which would change the meaning
 			// (and can make the range reversed); lone surrogates are fine in both modes
@@ -494,7 +720,11 @@ func (g *caseGen) class() *pnode {
 			g.feat["class-range"] = true
 			n.items = append(n.items, classItem{lo: a, hi: b, spell: g.spell(a) + 8*g.spell(b)})
 		default:
-			e := core.Pick(g.r, []byte{'d', 'w', 's', 'D', 'W', 'b'})
+			// (no \\D inside a class: regexp2 v2.5.2 drops the items that follow it, known finding C20-regexp2-class-notdigit)
+			e := core.Pick(g.r, []byte{'d', 'w', 's', 'd', 'W', 'b'})
+			if g.i && e == 'W' && !g.r.Chance(1, 8) {
+				e = 'd'
+			}
 			g.feat["class-esc-"+string(rune(e))] = true
 			n.items = append(n.items, classItem{esc: e})
 		}
@@ -561,7 +791,14 @@ func (g *caseGen) atom(depth int, cx gctx) *pnode {
 		w[4] = 0
 	}
 	var n *pnode
-	switch r.PickW(w) {
+	choice := r.PickW(w)
+	if g.i && choice == 1 && !r.Chance(1, 8) {
+		choice = 0
+	}
+	if choice == 1 && !hasFlag(g.flags, 's') && g.alphaHas(0x2028, 0x2029) {
+		choice = 0 // regexp2's ECMAScript "." matches U+2028/U+2029 (known finding C20-regexp2-dot-line-separators)
+	}
+	switch choice {
 	case 0:
 		n = g.lit()
 	case 1:
@@ -571,6 +808,9 @@ func (g *caseGen) atom(depth int, cx gctx) *pnode {
 		n = g.class()
 	case 3:
 		e := core.Pick(r, []byte{'d', 'w', 's', 'D', 'W', 'S'})
+		if g.i && e < 'a' && !r.Chance(1, 8) {
+			e += 'a' - 'A'
+		}
 		g.feat["esc-"+string(rune(e))] = true
 		n = &pnode{k: nEsc, esc: e}
 	default:
@@ -608,15 +848,15 @@ func (g *caseGen) group(depth int, cx gctx) *pnode {
 		}
 	}
 	grp.kids = []*pnode{g.alt(depth-1, inner)}
-	if quantified {
-		if nullable(grp.kids[0]) {
-			// quantified group whose body can match empty: no captures inside (RE2 and ES differ there)
-			stripCaptures(grp)
-			g.feat["quant-nullable-body"] = true
-		}
-		if grp.cap {
-			g.feat["group-cap-quantified"] = true
-		}
+	if quantified && nullable(grp.kids[0]) {
+		// A quantified group whose body can match the empty string is outside the domain: neither engine implements the
+		// empty check of RepeatMatcher (22.2.2.3.1 step 2.b), and they deviate from it differently (known findings
+		// C20-empty-check-captures, C20-empty-check-both-engines).  The group is kept, the quantifier dropped.
+		quantified = false
+		g.feat["quant-dropped-nullable-body"] = true
+	}
+	if quantified && grp.cap {
+		g.feat["group-cap-quantified"] = true
 	}
 	switch {
 	case grp.cap && grp.name != "":
@@ -635,6 +875,9 @@ func (g *caseGen) group(depth int, cx gctx) *pnode {
 func (g *caseGen) term(depth int, cx gctx) *pnode {
 	if g.r.Chance(12, 100) {
 		e := core.Pick(g.r, []byte{'^', '$', 'b', 'B', '^', '$'})
+		if !g.wordB && (e == 'b' || e == 'B') {
+			e = core.Pick(g.r, []byte{'^', '$'})
+		}
 		g.feat["assert-"+string(rune(e))] = true
 		return &pnode{k: nAssert, esc: e}
 	}
@@ -667,8 +910,37 @@ func (g *caseGen) alt(depth int, cx gctx) *pnode {
 	return n
 }
 
+func hasAlt(n *pnode) bool {
+	if n.k == nAlt {
+		return true
+	}
+	for _, k := range n.kids {
+		if hasAlt(k) {
+			return true
+		}
+	}
+	return false
+}
+
+// fixNotone: regexp2 v2.5.2 treats a negated one-character class ("Notone" node) like the character itself in its
+// alternation prefix analysis and auto-atomicity pass: "s|[^q]" and "x?[^q]" do not match "s" / "x"
+// (known finding C20-regexp2-notone). Every negated class gets at least two distinct characters.
+func (g *caseGen) fixNotone(n *pnode) {
+	if c, one := classSingleChar(n); one && n.neg {
+		n.items = append(n.items, classItem{lo: c, hi: c + 1})
+		if c+1 > 0x10FFFF || (c+1 >= 0x10000 && !g.u) || isLone(c) != isLone(c+1) {
+			n.items[len(n.items)-1] = classItem{lo: '#', hi: '#'}
+		}
+	}
+	for _, k := range n.kids {
+		g.fixNotone(k)
+	}
+}
+
 func (g *caseGen) pattern() *pnode {
 	p := g.alt(g.r.Range(1, 3), gctx{})
+	g.fixNotone(p)
+	g.fixSurrogateRuns(p)
 	return p
 }
 
@@ -679,6 +951,9 @@ func (g *caseGen) sample(n *pnode, out []rune, budget *int) []rune {
 	}
 	r := g.r
 	flip := func(c rune) rune {
+		if g.badForWordB(c) {
+			return g.alphaChar()
+		}
 		if !g.i || !r.Chance(1, 2) {
 			return c
 		}
@@ -718,7 +993,14 @@ func (g *caseGen) sample(n *pnode, out []rune, budget *int) []rune {
 		if it.esc != 0 {
 			return append(out, g.escSample(it.esc))
 		}
-		return append(out, flip(it.lo+rune(r.Intn(int(it.hi-it.lo)+1))))
+		span := int(it.hi - it.lo)
+		if span > 3 {
+			span = 3 // stay next to the generated end point (in i mode: inside the simple-case-pair alphabet)
+			if r.Chance(1, 3) {
+				return append(out, flip(it.hi))
+			}
+		}
+		return append(out, flip(it.lo+rune(r.Intn(span+1))))
 	case nEsc:
 		*budget--
 		return append(out, g.escSample(n.esc))
